@@ -538,6 +538,15 @@ func formatValue(v interface{}) string {
 		return fmt.Sprintf("\"%s\"", v.Format(timeFormat))
 	case *Condition:
 		return v.String()
+	case float64:
+		// the grammar has no exponent form and reads digits without a point
+		// as an integer: "%v" would turn 2.0 into the integer 2 and 1e-07 into
+		// something the receiving node cannot parse.
+		s := strconv.FormatFloat(v, 'f', -1, 64)
+		if !strings.Contains(s, ".") {
+			s += ".0"
+		}
+		return s
 	default:
 		return fmt.Sprintf("%v", v)
 	}
